@@ -385,6 +385,15 @@ def run(report, prog, tier):
 L = 'nfc.llcp.llc'
 T = 'nfc.llcp.tco'
 MUTANTS = [
+    ('bind-by-addr-shares-existing-sap', 'nfc.llcp.llc', """                if self.sap[addr] is None:
+                    socket.bind(addr)
+                    self.sap[addr] = ServiceAccessPoint(addr, self)
+                    self.sap[addr].insert_socket(socket)
+                else:
+                    raise err.Error(errno.EADDRINUSE)""", """                if self.sap[addr] is None:
+                    self.sap[addr] = ServiceAccessPoint(addr, self)
+                if not self.sap[addr].insert_socket(socket):
+                    raise err.Error(errno.EADDRINUSE)""", 'C17-R1'),
     ('dlc-close-forgets-address', 'nfc.llcp.tco', """            super(DataLinkConnection, self).close()
             self.acks_ready.notify_all()""", """            super(DataLinkConnection, self).close()
             self.addr = None
